@@ -72,6 +72,7 @@ type PrintState struct {
 	IndentationDone      bool // already put N number of tabs, reset on each new line
 	Compact              bool // don't indent at all (compact mode), no newlines, fewer spaces, no comments
 	AllParens            bool // print all expressions fully parenthesized.
+	KeepGrouping         bool // never drop the parentheses of a + (b + c): the text identifies the tree (function cache keys).
 	prev                 Node
 	last                 string
 	rightOperand         bool // the expression being printed is the right operand of an infix expression
@@ -415,7 +416,8 @@ func (i InfixExpression) PrettyPrint(out *PrintState) *PrintState {
 	if i.Right != nil { // the open slice a[1:] has no right operand and is written as it is read
 		// (the same associative operator is regrouped to the left without parentheses: 1 + (2 + 3) prints 1 + 2 + 3)
 		r, isInfix := i.Right.(*InfixExpression)
-		out.rightOperand = isInfix && !(r.Type() == i.Type() && associative[i.Type()] && leftSpineSameOperator(r))
+		regroup := isInfix && !out.KeepGrouping && r.Type() == i.Type() && associative[i.Type()] && leftSpineSameOperator(r)
+		out.rightOperand = isInfix && !regroup
 		i.Right.PrettyPrint(out)
 		out.rightOperand = false
 	}
